@@ -89,6 +89,10 @@ TUpdate == /\ Is("update") /\ Ev.set # <<>>
            /\ UNCHANGED <<tt, tdrop, tcache, tnow, twait, pend>>
 TUProbe == /\ Is("uprobe") /\ Len(Ev.obs) = Len(Ev.names)
            /\ \A i \in 1..Len(Ev.names) : Ev.obs[i] = Expected(Ev.site, Accept(tf, Ev.names[i]))
+           \* route filters: the same names sent as aggregation output (DispatchAggregate) meet the same verdict
+           /\ ("obsagg" \in DOMAIN Ev =>
+                  /\ Len(Ev.obsagg) = Len(Ev.names)
+                  /\ \A i \in 1..Len(Ev.names) : Ev.obsagg[i] = Expected(Ev.site, Accept(tf, Ev.names[i])))
            /\ UNCHANGED <<tf, tt, tdrop, tcache, tnow, twait, pend>>
 
 TNext == TSite \/ THist \/ TClock \/ TLookup \/ TTick \/ TUHist \/ TUpdate \/ TUProbe
